@@ -95,6 +95,7 @@ class Shard:
         found makes the Hypothesis test fail for that signature only; it is shrunk,
         recorded, masked, and the search is repeated to look behind it."""
         import hypothesis
+        import hypothesis.errors
         from hypothesis import HealthCheck, Phase, given, settings
         from . import jsonio
 
@@ -140,6 +141,16 @@ class Shard:
                 self.fail(state['target'], state['detail'], state['case'], part)
                 masked.add(state['target'])
                 self.count(f'{part}.rounds_with_failure')
+                continue
+            except hypothesis.errors.Flaky:
+                # the failure depends on what ran earlier in this process (state leaking between
+                # executions): still a failure of the property; keep the last failing case
+                if state['target'] is None:
+                    raise
+                self.fail(state['target'], '[history-dependent: failed after earlier cases in the same process] '
+                          + str(state['detail']), state['case'], part)
+                masked.add(state['target'])
+                self.count(f'{part}.history_dependent_failure')
                 continue
             break
 
